@@ -42,7 +42,7 @@ def main(tier):
     # model those theorems talk about
     c.phase_proofs("ParserShape")
     from checks import layerc
-    layerc.blocks(c, tier, 0.12 if tier == "quick" else 0.1)   # the whole-parser tie below runs the block phase too
+    layerc.blocks(c, tier, 0.12 if tier == "quick" else 0.1, proofs=(tier != "quick"))   # the whole-parser tie below runs the block phase too
     # Parse_C02 (Props/Parse.v): every event of the HTML model is safe on the tree that ONE Coq function of the input
     # bytes returns (Model/Parse.v parse_document_model), and that function is tied end to end to parse_document here
     layerc.whole(c, tier, 0.12 if tier == "quick" else 0.15)
